@@ -103,6 +103,17 @@ Definition receive (s : dp) (r : N) (size : nat) : dp :=
   | None => {| pack := pack s ++ [IRec r size false 0]; idx := iset r (length (pack s)) (idx s) |}
   end.
 
+(* the duplicate rule with its comparison as a parameter: does it compare the size of the pack file with the END of the
+   indexed extent (the code), or only with its start *)
+Definition extent_start_inside (pk : list item) (p : nat) : bool :=
+  match nth_error pk p with Some (IRec _ _ _ _) | Some (ITornBody _ _ _) => true | _ => false end.
+Definition receive_with (check_end : bool) (s : dp) (r : N) (size : nat) : dp :=
+  match ilook r (idx s) with
+  | Some p => if (if check_end then extent_inside (pack s) p else extent_start_inside (pack s) p) then s
+              else {| pack := pack s ++ [IRec r size false 0]; idx := iset r (length (pack s)) (idx s) |}
+  | None => {| pack := pack s ++ [IRec r size false 0]; idx := iset r (length (pack s)) (idx s) |}
+  end.
+
 (* how far a removal got: nothing / index row gone / header rewritten / k body bytes zeroed.
    [index_first] = the order of the source: true when RemoveBlobs commits the index deletion before touching the pack *)
 Inductive rm_stage := RmNone | RmIndex | RmHeader | RmZero (k : nat) | RmDone
@@ -153,7 +164,10 @@ Inductive dop :=
 | DReceive (r : N) (size : nat)
 | DRemove (r : N)
 | DCrashReceive (r : N) (size : nat) (st : ap_stage)     (* the process dies inside this receive; then restarts *)
-| DCrashRemove (r : N) (st : rm_stage).
+| DCrashRemove (r : N) (st : rm_stage)
+(* not a crash of this code: the index row of an acknowledged upload is there, the tail of the pack is not (a disk that
+   lied about fsync, a pack restored from a truncated copy) - the state the duplicate rule of ReceiveBlob exists for *)
+| DLostTail (r : N) (size have : nat).
 
 Section Order.
   Variable index_first : bool.
@@ -167,6 +181,8 @@ Section Order.
         | None => append_upto s r size st
         end
     | DCrashRemove r st => remove_upto index_first s r st
+    | DLostTail r size have =>
+        if Nat.ltb have size then {| pack := pack s ++ [ITornBody r size have]; idx := iset r (length (pack s)) (idx s) |} else s
     end.
   Definition druns (s : dp) (os : list dop) : dp := fold_left dstep os s.
 End Order.
